@@ -166,7 +166,8 @@ theorem codeTakeLine_s2 {src k ls p} {sA sB : St} (h : SR src k ls p sA sB) (nod
   have hseg : SegRel src { segA src ls (p + pos.toNat) with forceNewline := true }
       (shK k { segA src ls (p + pos.toNat) with forceNewline := true }) :=
     segRel_of_in hin (by simp only [segA]; omega)
-  refine S2.bind (appendLine_s2 h3 node hseg) (fun _ _ sA5 sB5 h5 => ?_)
+  refine S2.bind (appendLine_s2 h3 node hseg (.inl (by show ((p + pos.toNat : Nat) : Int) < ((lineEnd src ls : Nat) : Int); omega)))
+    (fun _ _ sA5 sB5 h5 => ?_)
   refine S2.mono (advance_s2 h5 (by simp only [Segment.len, shK, segA]; omega)
     (by simp only [Segment.len, segA]; omega) ?_) (fun _ _ sA6 sB6 h6 => ?_)
   · refine ⟨hi.line, by have := hi.ge; omega, ?_, fun e => ?_⟩
@@ -208,8 +209,12 @@ theorem codeOpen_sim (src : Bytes) : OpenSim src .code := by
 
 /-! ### codeBlockParser.Continue -/
 
-theorem codeContinue_sim (src : Bytes) : ContinueSim src .code := by
-  intro k ls p node sA sB h
+/-- `Continue` of the code block parser when there is a current line (on an exhausted reader the "blank line" it would
+    append is empty, which the relation does not allow in a raw block: `NodeRel.rawNE`) -/
+theorem codeContinue_sim' (src : Bytes) : ∀ k ls p node sA sB, SR src k ls p sA sB → p < src.length →
+    S2 (fun a b sA' sB' => b = a ∧ ∃ p', p ≤ p' ∧ SR src k ls p' sA' sB')
+      (bpContinue .code node sA) (bpContinue .code (node + 1) sB) := by
+  intro k ls p node sA sB h hp
   show S2 _ (codeContinue node sA) (codeContinue (node + 1) sB)
   unfold codeContinue
   refine S2.bind (peekLine_s2 h) (fun a b sA1 sB1 hq => ?_)
@@ -237,7 +242,9 @@ theorem codeContinue_sim (src : Bytes) : ContinueSim src .code := by
     have hle := hi.le
     have hin : SegIn src k ls a := ⟨hi.line, by omega, by omega, by omega⟩
     have hinl : InL src k ls a.start.toNat := ⟨hi.line, by omega, by omega, fun e => hi.eof (by omega)⟩
-    refine S2.bind (appendLine_s2 h3 node (segRel_of_inl hin hinl)) (fun _ _ sA4 sB4 h4 => ?_)
+    have hplt := hi.lt_iff.mp hp
+    refine S2.bind (appendLine_s2 h3 node (segRel_of_inl hin hinl) (.inl (by rcases t3 with t3 | t3 <;> omega)))
+      (fun _ _ sA4 sB4 h4 => ?_)
     exact S2.pure ⟨rfl, p, Nat.le_refl _, h4⟩
   · rw [if_neg hc, if_neg hc]
     refine S2.bind (lineOffset_s2 h1) (fun a b sA2 sB2 hq => ?_)
@@ -357,6 +364,6 @@ theorem codeClose_sim (src : Bytes) : CloseSim src .code := by
     exact S2.bind (P := fun _ _ _ _ => False) S2.throwL (fun _ _ _ _ hf => hf.elim)
   · rw [if_neg hc, if_neg hc]
     refine modNode_s2 h3 node _ _ (fun a b hab => ?_)
-    exact { hab with lines := SegsRel.take _ hab.lines }
+    exact { hab with lines := SegsRel.take _ hab.lines, rawNE := fun hr l hl => hab.rawNE hr l (List.mem_of_mem_take hl) }
 
 end GM.Blocks
